@@ -485,3 +485,184 @@ example : constEval (fun _ => none) (.slice (.str "hello".toList) (.int 0) (.bin
     = .ok (.fstr, none) := by rfl
 
 end Incan.ConstEval
+
+namespace Incan.ConstEval
+
+/-- Type agreement for a strict binary operator: the type the compiler decides is the type of the run-time result. -/
+theorem binConst_type (op : Op) (r : E) (lv rv : Option CV) (t : Ty) (v : Option CV) (a b res : RV)
+    (hop : ¬ (op = .and_ ∨ op = .or_))
+    (hc : binConst op r a.ty lv b.ty rv = .ok (t, v)) (hr : binRun op r a b = .ok res) : res.ty = t := by
+  cases a <;> cases b <;> cases op <;>
+    simp [binConst, binRun, RV.ty, Op.isCmp, Op.toNum, numTy, Policy.resultNumericType] at hc hr hop ⊢
+  all_goals (try (obtain ⟨h1, _⟩ := hc; subst h1))
+  all_goals (try (rw [← hr]))
+  all_goals (try rfl)
+  all_goals (try (split at hr))
+  all_goals (try (rw [← hr]))
+  all_goals (try rfl)
+  all_goals (try (split at hr))
+  all_goals (try (rw [← hr]))
+  all_goals (try rfl)
+  all_goals (try (simp_all [RV.ty]))
+  all_goals (try (subst hr))
+  all_goals (try rfl)
+
+/-- Every const the compiler has typed has, at run time, a value of that type. -/
+def TyAgree (C : String → Option (Ty × Option CV)) (R : String → Option RV) : Prop :=
+  ∀ name t v rv, C name = some (t, v) → R name = some rv → rv.ty = t
+
+/-- The type the compiler decides for an initializer is the type of the value the same expression has at run
+time (for `**` this includes the syntactic rule: int only for a non-negative integer literal exponent). -/
+theorem const_type_sound (C : String → Option (Ty × Option CV)) (R : String → Option RV) (hCR : TyAgree C R)
+    (e : E) (t : Ty) (v : Option CV) (rv : RV)
+    (hc : constEval C e = .ok (t, v)) (hr : runEval R e = .ok rv) : rv.ty = t := by
+  induction e generalizing t v rv with
+  | int n => simp [constEval] at hc; simp [runEval] at hr; subst hr; simp [RV.ty, hc.1]
+  | float f => simp [constEval] at hc; simp [runEval] at hr; subst hr; simp [RV.ty, hc.1]
+  | bool b => simp [constEval] at hc; simp [runEval] at hr; subst hr; simp [RV.ty, hc.1]
+  | str s => simp [constEval] at hc; simp [runEval] at hr; subst hr; simp [RV.ty, hc.1]
+  | ref name =>
+    simp only [constEval] at hc
+    simp only [runEval] at hr
+    split at hc
+    · rename_i r hcn
+      injection hc with hc; subst hc
+      split at hr
+      · rename_i w hrn; injection hr with hr; subst hr; exact hCR name t v _ hcn hrn
+      · cases hr
+    · cases hc
+  | neg e ih =>
+    simp only [constEval] at hc
+    simp only [runEval] at hr
+    split at hc
+    · cases hc
+    · rename_i t' v' he
+      split at hc
+      · rename_i hty
+        injection hc with hc; injection hc with ht _; subst ht
+        split at hr
+        · rename_i n hn; injection hr with hr; subst hr; have := ih _ _ _ he hn; simpa [RV.ty] using this
+        · rename_i f hn; injection hr with hr; subst hr; have := ih _ _ _ he hn; simpa [RV.ty] using this
+        · cases hr
+        · cases hr
+      · cases hc
+  | not_ e ih =>
+    simp only [constEval] at hc
+    simp only [runEval] at hr
+    split at hc
+    · cases hc
+    · split at hc
+      · injection hc with hc; injection hc with ht _; subst ht
+        split at hr
+        · injection hr with hr; subst hr; rfl
+        · cases hr
+        · cases hr
+      · cases hc
+  | bin op l r ihl ihr =>
+    simp only [constEval] at hc
+    split at hc
+    · cases hc
+    · rename_i lt lv hl
+      split at hc
+      · cases hc
+      · rename_i rt rvv hrr
+        by_cases hop : op = .and_ ∨ op = .or_
+        · -- the result of and / or is a bool on both sides
+          have hnum : op.toNum = none := by rcases hop with h | h <;> simp [h, Op.toNum]
+          have hcmp : op.isCmp = false := by rcases hop with h | h <;> simp [h, Op.isCmp]
+          have hadd : op ≠ .add := by rcases hop with h | h <;> simp [h]
+          have hin : ¬ (op = .in_ ∨ op = .notIn) := by rcases hop with h | h <;> simp [h]
+          simp only [binConst, hadd, false_and, if_false, hcmp, Bool.false_eq_true, hin, hnum, hop, if_true] at hc
+          split at hc
+          · injection hc with hc; injection hc with ht _; subst ht
+            simp only [runEval, hop, if_true] at hr
+            split at hr
+            · rename_i a ha
+              split at hr
+              · injection hr with hr; subst hr; rfl
+              · split at hr
+                · injection hr with hr; subst hr; rfl
+                · split at hr
+                  · injection hr with hr; subst hr; rfl
+                  · cases hr
+                  · cases hr
+            · cases hr
+            · cases hr
+          · cases hc
+        · simp only [runEval, hop, if_false] at hr
+          split at hr
+          · cases hr
+          · rename_i a ha
+            split at hr
+            · cases hr
+            · rename_i b hb
+              have h1 := ihl _ _ _ hl ha
+              have h2 := ihr _ _ _ hrr hb
+              subst h1; subst h2
+              exact binConst_type op r lv rvv t v a b rv hop hc hr
+  | index b i ihb ihi =>
+    simp only [constEval] at hc
+    simp only [runEval] at hr
+    split at hc
+    · cases hc
+    · split at hc
+      · cases hc
+      · split at hc
+        · cases hc
+        · split at hc
+          · cases hc
+          · have ht : t = .fstr := by
+              split at hc
+              · split at hc
+                · injection hc with hc; injection hc with ht _; exact ht.symm
+                · cases hc
+              · injection hc with hc; injection hc with ht _; exact ht.symm
+            subst ht
+            split at hr
+            · cases hr
+            · split at hr
+              · cases hr
+              · split at hr
+                · split at hr
+                  · injection hr with hr; subst hr; rfl
+                  · cases hr
+                · cases hr
+  | slice b st en sp ihb ihs ihe ihp =>
+    simp only [constEval] at hc
+    simp only [runEval] at hr
+    have ht : t = .fstr := by
+      split at hc
+      · cases hc
+      · split at hc
+        · cases hc
+        · split at hc
+          · cases hc
+          · split at hc
+            · cases hc
+            · split at hc
+              · cases hc
+              · split at hc
+                · split at hc
+                  · injection hc with hc; injection hc with ht _; exact ht.symm
+                  · cases hc
+                  · cases hc
+                · injection hc with hc; injection hc with ht _; exact ht.symm
+    subst ht
+    split at hr
+    · cases hr
+    · split at hr
+      · cases hr
+      · split at hr
+        · cases hr
+        · split at hr
+          · cases hr
+          · split at hr
+            · split at hr
+              · injection hr with hr; subst hr; rfl
+              · cases hr
+              · cases hr
+            · cases hr
+  | absent => simp [constEval] at hc
+  | other => simp [constEval] at hc
+
+end Incan.ConstEval
